@@ -157,6 +157,34 @@ def check_key_table_filter(ctx, rule):
                             okf = False
                             detail += "; insertion at %s: (id, key) of one entry of self.keys: %s, dominated by `id == key.key_id()`: %s" % (t["at"], entry, eqok)
                     continue
+                if l.kind == "param" and (l.kind, l.data, l.path) == KEYS_OF_SELF and set(l.via) <= {"Iterator::collect", "FromIterator::from_iter", "IntoIterator::into_iter"}:
+                    # shape C: the parsed table itself, pruned in place by `retain(|id, key| id == key.key_id())` before it is handed on
+                    okc = False
+                    for (ri, rt) in b.calls_named("std::collections::BTreeMap::retain", "std::collections::HashMap::retain"):
+                        if not (root_ids(b, rt["args"][0]) == frozenset([KEYS_OF_SELF]) and b.dom_plain(ri, news[0][0])):
+                            continue
+                        pr = op_place(rt["args"][1])
+                        dr = b.single_def(pr["l"]) if pr is not None and not pr["p"] else None
+                        if not (dr and dr.kind == "assign" and dr.node["rv"].get("agg") == "closure" and dr.node["rv"]["closure_key"] in fx.fns):
+                            continue
+                        rcb = body_of(fx, dr.node["rv"]["closure_key"])
+                        rl = rcb.trace({"l": 0, "p": []})
+                        def _is_eq(x):
+                            if not (x.kind == "call" and callee_name(x.data[1]) == "std::cmp::PartialEq::eq"):
+                                return False
+                            u, v = rcb.trace(x.data[1]["args"][0]), rcb.trace(x.data[1]["args"][1])
+                            for (ul_, vl_) in ((u, v), (v, u)):
+                                if ul_ and all(y.kind == "param" and y.data == 2 for y in ul_) and \
+                                        vl_ and all(y.kind == "call" and callee_name(y.data[1]) == "crypto::PublicKey::key_id" and
+                                                    all(z.kind == "param" and z.data == 3 for z in rcb.trace(y.data[1]["args"][0])) for y in vl_):
+                                    return True
+                            return False
+                        if rl and all(_is_eq(x) for x in rl):
+                            okc = True
+                    if not okc:
+                        okf = False
+                        detail += "; the parsed table is handed on without a `retain(|id, key| id == key.key_id())` in front"
+                    continue
                 if not (l.kind == "call" and callee_name(l.data[1]) == "std::iter::Iterator::filter" and set(l.via) <= {"Iterator::collect", "FromIterator::from_iter"}):
                     okf = False
                     continue
@@ -446,3 +474,96 @@ def check_string_newtypes(ctx, RULE, closure=None):
                      "stored value <- {%s}" % ", ".join(leaf_s(rb, l) for l in lv), f["at"])
     if n_nt == 0:
         ctx.bad(RULE, "string newtypes", "no hand-written Deserialize impl of a string newtype found (VirtualTargetPath / KeyId expected)")
+
+
+def check_newtype_serialize(ctx, RULE, closure):
+    """Single-field structs of the wire closure with a hand-written Serialize write the field as it is (a derived Deserialize reads
+    it back as it is): the value handed to the serializer is `self.0`, not a re-tokenised, trimmed or normalised copy."""
+    fx = ctx.fx
+    ALLOWED_VIA = {"Deref::deref", "String::as_str", "Vec::as_slice", "AsRef::as_ref", "slice::iter", "Vec::iter", "IntoIterator::into_iter",
+                   "Vec::deref", "String::deref"}
+    n = 0
+    for im in fx.impls:
+        if norm(im.get("trait")) != "serde::Serialize" or im.get("self_adt") not in closure:
+            continue
+        adt = fx.adts.get(im.get("self_adt") or "")
+        if not adt or len(adt["variants"]) != 1 or len(adt["variants"][0]["fields"]) != 1:
+            continue
+        for m in im["methods"]:
+            f = fx.fns.get(m["key"])
+            if not f or f.get("exp") or m["name"] != "serialize":
+                continue
+            n += 1
+            rb = ctx.region(None, policy="private", key=f["key"])
+            fld0 = ("f", adt["variants"][0]["fields"][0]["name"])
+            sinks = []
+            for (i, t) in rb.calls():
+                tr = norm(t.get("trait"))
+                if tr == "serde::Serialize" and t["args"]:
+                    sinks.append((t, t["args"][0]))
+                elif tr == "serde::Serializer" and len(t["args"]) >= 2:
+                    sinks.append((t, t["args"][1]))
+            ok = bool(sinks)
+            detail = []
+            for (t, a) in sinks:
+                lv = rb.trace(a)
+                good = bool(lv) and all(l.kind == "param" and l.data == 1 and l.path[:1] == (fld0,) and set(l.via) <= ALLOWED_VIA for l in lv)
+                ok = ok and good
+                detail.append("%s <- {%s}" % (callee_name(t).split("::")[-1], ", ".join(leaf_s(rb, l) for l in lv)))
+            ctx.inst(RULE, "%s writes its field unchanged" % im["self_ty"].split("::")[-1], ok, "; ".join(detail) or "no serializer call found", f["at"])
+    return n
+
+
+def check_custom_codecs_paired(ctx, RULE):
+    """`#[serde(with = ..)]`, `serialize_with`, `deserialize_with`: a field decoded through a custom function that has no encoding
+    counterpart in the same module is transformed on the way in only (sorted, de-duplicated, trimmed ..) - the value read back is
+    not the value written.  The functions are found as the hand-written local functions that derive-generated code calls."""
+    fx = ctx.fx
+    sides = {"d:Deserialize": {}, "d:Serialize": {}}
+    for g in fx.doc["fns"]:
+        for side in sides:
+            if side not in (g.get("exp") or ""):
+                continue
+            for blk in g["blocks"]:
+                t = blk["term"]
+                if not t or t["k"] != "call" or blk["cleanup"]:
+                    continue
+                c = fx.fns.get(t.get("resolved_key") or t.get("callee_key"))
+                if c and not c.get("exp") and c["kind"] in ("Fn", "AssocFn") and not c["path"].startswith("<"):
+                    sides[side].setdefault(c["path"], t["at"])
+    de_mods = {p.rsplit("::", 1)[0]: (p, at) for p, at in sides["d:Deserialize"].items()}
+    ser_mods = {p.rsplit("::", 1)[0]: (p, at) for p, at in sides["d:Serialize"].items()}
+    for mod in sorted(set(de_mods) | set(ser_mods)):
+        ok = mod in de_mods and mod in ser_mods
+        ctx.inst(RULE, "custom field codec %s works both ways" % mod, ok,
+                 "decoding through %s, encoding through %s" % (de_mods.get(mod, ("NOTHING (derived encoding of the raw field)",))[0],
+                                                               ser_mods.get(mod, ("NOTHING (derived decoding of the raw field)",))[0]),
+                 (de_mods.get(mod) or ser_mods.get(mod))[1])
+    ctx.ok(RULE, "custom field codec inventory", "%d decoding / %d encoding function(s) called from derive-generated code" % (
+        len(sides["d:Deserialize"]), len(sides["d:Serialize"])))
+
+
+def check_der_integers(ctx, rule):
+    """Key material integers (RSA modulus, exponent) are read with `derp::positive_integer`, which strips the sign octet; they
+    must be written back with `Der::positive_integer`, which restores it.  `Der::integer` writes the bytes as given: used on
+    such a value it produces a different (for a value with the top bit set: negative) INTEGER, another SubjectPublicKeyInfo and
+    another key id for the same key."""
+    fx = ctx.fx
+    reads, pos_writes, raw_writes = [], [], []
+    for f in fx.doc["fns"]:
+        if f.get("exp") or not f["path"].split("::")[0] in ("crypto",) and not f["path"].startswith("<crypto::"):
+            continue
+        for blk in f["blocks"]:
+            t = blk["term"]
+            if not t or t["k"] != "call" or blk["cleanup"]:
+                continue
+            n = callee_name(t) or ""
+            if n == "derp::positive_integer":
+                reads.append((f["path"], t["at"]))
+            elif n == "derp::Der::positive_integer":
+                pos_writes.append((f["path"], t["at"]))
+            elif n == "derp::Der::integer":
+                raw_writes.append((f["path"], t["at"]))
+    ctx.inst(rule, "unsigned key integers are written with the sign-restoring writer", not raw_writes and len(pos_writes) >= 1,
+             "derp::positive_integer reads: %d; Der::positive_integer writes: %d; raw Der::integer writes: %s" % (len(reads), len(pos_writes), raw_writes or "none"),
+             (raw_writes or pos_writes or [(None, None)])[0][1])
